@@ -199,8 +199,33 @@ func genC16Case(t *rapid.T) *StructCase {
 		} else {
 			c.pickEntry(rapid.IntRange(0, 7).Draw(t, "entry2"))
 		}
+	} else if rapid.IntRange(0, 15).Draw(t, "lateTag") == 9 && addLateTagField(c) {
+		// a TAG names a function nobody has registered yet; the type is validated once (so whatever the
+		// library remembers about the type exists), THEN the function is registered globally, then comes
+		// the call: the name resolves to the function when the validation runs
+		c.LateReg, c.Warm = "LATE1", true
 	}
 	return c
+}
+
+// addLateTagField appends a string field whose tag names LATE1 to a synthesised outermost struct type.
+func addLateTagField(c *StructCase) bool {
+	if c.Tag == emptyTag {
+		return false
+	}
+	ty, v := &c.Root, &c.Val
+	for ty.K == "ptr" {
+		if v.Nil || len(v.E) == 0 || v.Share > 0 || v.Interior > 0 {
+			return false
+		}
+		ty, v = ty.Elem, &v.E[0]
+	}
+	if ty.K != "struct" || len(v.E) != len(ty.Fields) {
+		return false
+	}
+	ty.Fields = append(ty.Fields[:len(ty.Fields):len(ty.Fields)], desc.F{Name: "Late9", T: desc.Scalar("string"), Tags: map[string]string{c.tagName(): "LATE1"}})
+	v.E = append(v.E[:len(v.E):len(v.E)], desc.Str("x"))
+	return true
 }
 
 func rootOf(c *StructCase) string {
